@@ -11,6 +11,7 @@ import (
 
 func init() {
 	Registry["C03"] = func(c *core.Ctx) { lexerCheck(c, "tokens") }
+	Registry["C04"] = func(c *core.Ctx) { lexerCheck(c, "position") }
 	Replays["C03"] = lexReplay
 	Replays["C04"] = lexReplay
 }
@@ -60,8 +61,8 @@ func lexerCheck(c *core.Ctx, class string) {
 		c.Count(st.Inputs, st.Nontrivial, st.Inputs)
 		c.AddExtraInt("mismatches_other_class", 0)
 		for _, m := range st.Mismatches {
-			if m.Class == class {
-				c.Violation(fmt.Sprintf("%s: input %q: %s", source, fromCps(m.Input), m.What), m)
+			if what, ok := m.Classes[class]; ok {
+				c.Violation(fmt.Sprintf("%s: input %q: %s", source, fromCps(m.Input), what), m)
 			}
 		}
 		for k, v := range st.NMismatch {
@@ -166,14 +167,15 @@ func lexerCheck(c *core.Ctx, class string) {
 				Expected LexResult `json:"expected"`
 			}
 			json.Unmarshal(raw, &b)
-			if b.Class != class {
+			in := inputs[b.ID]
+			got, _ := LexReal(in)
+			cl := compareLex(b.Expected, got)
+			what, ok := cl[class]
+			if !ok {
 				c.AddExtraInt("mismatches_other_class", 1)
 				continue
 			}
-			in := inputs[b.ID]
-			got, _ := LexReal(in)
-			_, what := compareLex(b.Expected, got)
-			c.Violation(fmt.Sprintf("Lexer_Trace: input %q: %s", in, what), LexMismatch{Input: cps(in), Class: b.Class, What: what, Expected: b.Expected, Observed: got})
+			c.Violation(fmt.Sprintf("Lexer_Trace: input %q: %s", in, what), LexMismatch{Input: cps(in), Classes: cl, Expected: b.Expected, Observed: got})
 		}
 	}
 	c.Exhaustive = false
@@ -191,11 +193,15 @@ func lexReplay(c *core.Ctx, path string) int {
 		return 2
 	}
 	got, crash := LexReal(fromCps(rec.Case.Input))
-	class, what := compareLex(rec.Case.Expected, got)
-	if crash != "" {
-		class, what = "tokens", crash
+	class := "tokens"
+	if c.ID == "C04" {
+		class = "position"
 	}
-	if class == "" {
+	what := compareLex(rec.Case.Expected, got)[class]
+	if crash != "" {
+		what = crash
+	}
+	if what == "" {
 		fmt.Printf("replay %s: input %q now matches the specification\n", path, fromCps(rec.Case.Input))
 		return 0
 	}
